@@ -106,6 +106,8 @@ def run(prop, tier, seed):
         items += list(scenarios(fl, 3, m_e, ('foreach',)))
         items += list(scenarios(fl, 3, m_f, ('none',)))
     cells = sorted({str(c) for c, _ in items})
+    import kani_engine
+    kr = kani_engine.KaniRun('edge_reverse_and_order')       # engine B: Edge::reverse on the compiled code
     return scenario_check(
         prop, tier, seed, items, evaluate, sig_of,
         bounds={'nodes': 3, 'max_edges_filter': m_f, 'max_edges_for_each': m_e, 'configurations': len(configs()),
@@ -114,4 +116,4 @@ def run(prop, tier, seed):
         assumptions=['std models of engine A', 'the in-list of a node in G lists its edges in the order the out-list of the same node lists them in G^R (follows from C01/C03)',
                      'pure filters'],
         rule='work item = (connect sequence, one of the 16 configurations, root, target, method); both runs in one executor path, outputs compared term by term',
-        expected_cells=cells)
+        expected_cells=cells, pre_finish=lambda rep, native: kani_engine.absorb(rep, native, kr, prop, 'rev'))
